@@ -78,7 +78,8 @@ Inductive step_in :=
 | Abort (tx : N)
 | CompleteCommit (tx : N)
 | CompleteAbort (tx : N)
-| Timeouts (now : N).                       (* clock set to now, then cleanup_timeouts() *)
+| Timeouts (now : N) (order : list N).      (* clock set to now, then cleanup_timeouts(); order = the
+                                               timed-out ids in the (HashMap) order they were swept *)
 
 (* reply codes: [0] = Ok(()), [1; c] = Err of kind c, votes: [2; code] where code 0 = Ok(None),
    1 = Ok(Some Prepared), 4 = Ok(Some Aborting); timeouts: 3 :: sorted ids *)
@@ -91,6 +92,22 @@ Definition sort_N (l : list N) : list N := fold_right insert_sorted [] l.
 Definition same_set (a b : list N) : bool :=
   forallb (fun x => existsb (N.eqb x) b) a && forallb (fun x => existsb (N.eqb x) a) b
   && Nat.eqb (length a) (length b).
+
+(* abort(tx) of a pending transaction: it leaves the table, its locks are released, the abort is
+   logged (phase change from whatever phase the coordinator held IN MEMORY, then the completion) *)
+Definition abort1 (c : coord) (tx : N) : coord * list tentry :=
+  match aget (pending c) tx with
+  | None => (c, [])
+  | Some t =>
+      (Co (adel (pending c) tx) (release_tx (locks c) (yes_handles t) tx) (cfg_prepare_timeout c),
+       [TPhase tx (phase t) ABORTING; TComplete tx false])
+  end.
+(* the timeout sweeper treats every timed-out transaction exactly like abort(tx), one after the other *)
+Fixpoint abort_all (c : coord) (order : list N) : coord * list tentry :=
+  match order with
+  | [] => (c, [])
+  | tx :: r => let '(c1, w1) := abort1 c tx in let '(c2, w2) := abort_all c1 r in (c2, w1 ++ w2)
+  end.
 
 (* one call: (state, records appended in order, reply); [now] = the clock at the call *)
 Definition step (now : N) (c : coord) (s : step_in) : coord * list tentry * step_out :=
@@ -153,15 +170,15 @@ Definition step (now : N) (c : coord) (s : step_in) : coord * list tentry * step
           if negb (phase t =? ABORTING) then (c, [], [1; 2])
           else (Co (adel (pending c) tx) (release (locks c) (yes_handles t)) (cfg_prepare_timeout c), [], [0])
       end
-  | Timeouts _ =>
+  | Timeouts _ order =>
+      (* a timeout is an abort decision (it is broadcast and the locks are released): it is logged
+         like abort(tx) before it takes effect *)
       let out := filter (fun p => timeout (snd p) <? now - started (snd p)) (pending c) in
-      let keep := filter (fun p => negb (timeout (snd p) <? now - started (snd p))) (pending c) in
-      (Co keep (fold_left (fun ls p => release_tx ls (yes_handles (snd p)) (fst p)) out (locks c))
-           (cfg_prepare_timeout c),
-       [], 3 :: sort_N (map fst out))
+      if negb (same_set order (map fst out)) then (c, [], [9])              (* malformed case *)
+      else let '(c', w) := abort_all c order in (c', w, 3 :: sort_N (map fst out))
   end.
 Definition clock_of (now : N) (s : step_in) : N :=
-  match s with Timeouts t => t | _ => now end.
+  match s with Timeouts t _ => t | _ => now end.
 
 (* ---------------------------------------------------------------- TxRecoveryState::from_entries *)
 Record scan := Sc {
